@@ -25,7 +25,7 @@ type NameOpts struct {
 
 var plainComps = []string{"a", "b", "c", "d", "x", "y", "f", "lib", "test", "src", "main.go", "README", "a1", "z9", "ab", "ad", "da", "d0", "Makefile", "util.c", "x_y", "v1.2"}
 var spaceComps = []string{"my file.txt", "a b", "d d", "y z", "new folder", "x  y", "a b c"}
-var parenComps = []string{"100%", "%s.txt", "Readme", "readme", "SRC", strings.Repeat("n", 120), "a(b", "d(1)", "f(2).txt", "a+b", "c++", "x+y.z", "(x)", "lib-old", "d-old", "d.c", "test.c", "test-data", "lib.go", "a.b", "aXb", "d-a", "d-b"}
+var parenComps = []string{"100%", "%s.txt", "Readme", "readme", "SRC", strings.Repeat("n", 120), strings.Repeat("w", 244), strings.Repeat("w", 250), strings.Repeat("w", 255), "a(b", "d(1)", "f(2).txt", "a+b", "c++", "x+y.z", "(x)", "lib-old", "d-old", "d.c", "test.c", "test-data", "lib.go", "a.b", "aXb", "d-a", "d-b"}
 var metaComps = []string{"[x]", "a*b", "q?", "p|q", "^s", "e$", "{k}", "a{2}", "x[0]", "a.*", "(?i)a", "a)b", "d+"}
 var nonASCII = []string{"é", "日本", "ß", "café", "naïve.txt", "файл", "語"}
 
@@ -139,10 +139,13 @@ func NameSet(r *rand.Rand, o NameOpts) []string {
 
 // ValidPath: the name domain the monitors cover (see DESIGN §3.5 exclusions).
 func ValidPath(p string) bool {
-	if p == "" || len(p) > 200 {
+	if p == "" || len(p) > 700 {
 		return false
 	}
 	for _, c := range strings.Split(p, "/") {
+		if len(c) > 255 {
+			return false
+		}
 		if c == "" || c == "." || c == ".." || strings.HasPrefix(c, "-") || strings.HasPrefix(c, ".goit") {
 			return false
 		}
@@ -294,7 +297,7 @@ func Message(r *rand.Rand, counter int) (string, string) {
 func Identity(r *rand.Rand) (name, email, class string) {
 	names := []struct{ n, c string }{
 		{"Alice", "plain"}, {"Alice B. Carol", "spaces"}, {"José Núñez", "non-ascii"}, {"山田 太郎", "non-ascii"},
-		{"O'Neil", "quote"}, {"a>b", "gt"}, {"Mr 100% X", "percent"}, {"%s %d", "percent-verbs"}, {"Dr. X (PhD)", "paren"}, {"x=y", "equals"}, {"#1 dev", "hash"}, {"[bot]", "bracket"},
+		{"O'Neil", "quote"}, {"a>b", "gt"}, {"Mr 100% X", "percent"}, {"Ann  Lee", "double-space"}, {"a   b  c", "double-space"}, {"%s %d", "percent-verbs"}, {"Dr. X (PhD)", "paren"}, {"x=y", "equals"}, {"#1 dev", "hash"}, {"[bot]", "bracket"},
 	}
 	emails := []string{"a@example.com", "first.last@sub.example.org", "x_y+tag@a-b.co", "u@d.io", "A.B-c@x1.y2.museum"}
 	n := pick(r, names)
